@@ -481,6 +481,11 @@ func (p Sqlite) DeleteAlert(alert_id string) error {
 func (p Sqlite) CreateContact(newContact *alertutils.Contact) error {
 	var contact alertutils.Contact
 	result := p.db.First(&contact, "contact_name = ?", newContact.ContactName)
+	if result.Error == nil {
+		err := fmt.Errorf("CreateContact: contact name: %v already exist", newContact.ContactName)
+		log.Error(err.Error())
+		return err
+	}
 	if result.Error != nil {
 		if !errors.Is(result.Error, gorm.ErrRecordNotFound) {
 			err := fmt.Errorf("CreateContact: contact name: %v already exist, Error=%v", newContact.ContactName, result.Error)
